@@ -273,11 +273,11 @@ pub fn rows_c09(args: &[String]) -> i32 {
     }
     // floats
     for x in [0.0f32, -0.0, 1.0, -1.0, 0.1, 1e10, 1e-10, f32::MAX, f32::MIN, f32::MIN_POSITIVE, f32::EPSILON, f32::NAN, f32::INFINITY, f32::NEG_INFINITY,
-              9.91e37, 9.9e37, 16777216.0, 16777217.0, 0.3, 123456.79, 1e38, 3.4e38, 1e-38, 1e-45, 1.5, 100.0, 1e7, 1e-5, 1e21, 1e22, 1e-7] {
+              9.91e37, 9.9e37, -f32::NAN, f32::from_bits(0xFFC0_0001), f32::from_bits(0x7F80_0001), f32::from_bits(0xFF80_0000 | 0x1234), 16777216.0, 16777217.0, 0.3, 123456.79, 1e38, 3.4e38, 1e-38, 1e-45, 1.5, 100.0, 1e7, 1e-5, 1e21, 1e22, 1e-7] {
         f32_row(x, &mut out);
     }
     for x in [0.0f64, -0.0, 1.0, -1.0, 0.1, 1e10, 1e-10, f64::MAX, f64::MIN, f64::MIN_POSITIVE, f64::EPSILON, f64::NAN, f64::INFINITY, f64::NEG_INFINITY,
-              9.91e37, 9.9e37, 9007199254740993.0, 0.30000000000000004, 1e308, 1e-308, 5e-324, 1.7976931348623157e308, 1e22, 1e23, 1e21, 123456789.123456789, 1e-7, 1e-5] {
+              9.91e37, 9.9e37, -f64::NAN, f64::from_bits(0xFFF0_0000_0000_0001), f64::from_bits(0x7FF0_0000_0000_0001), 9007199254740993.0, 0.30000000000000004, 1e308, 1e-308, 5e-324, 1.7976931348623157e308, 1e22, 1e23, 1e21, 123456789.123456789, 1e-7, 1e-5] {
         f64_row(x, &mut out);
     }
     for e in 0..=254u32 {
